@@ -255,9 +255,13 @@ refactor1, refactor2, refactor3 concern the code of the FIRST behaviour''')
 ids = ['C%02d' % i for i in range(1, 21)]
 first, second = ids[:10], ids[10:]
 pairs = [(first[i], second[(i + off) % 10]) for i in range(10)]
+if os.environ.get('PAIRS'):
+    # explicit pairs for a targeted round: PAIRS="C07:C14,C17:C20" (breaking agents get them as written: first -> change1-3)
+    pairs = [tuple(reversed(x.split(':'))) for x in os.environ['PAIRS'].split(',')]
+ONLY_B = bool(os.environ.get('ONLY_B'))
 os.makedirs('/tmp/wt', exist_ok=True)
 for i, (a, b) in enumerate(pairs):
-    for kind, tmpl, base in (('B', BREAK, b0), ('R', REFAC, r0)):
+    for kind, tmpl, base in ((('B', BREAK, b0),) if ONLY_B else (('B', BREAK, b0), ('R', REFAC, r0))):
         name = '%s%02d' % (kind, base + i)
         wt = '/tmp/wt/' + name
         if not os.path.isdir(wt):
